@@ -144,7 +144,9 @@ func (e *Engine) step(f *frame, stp **State, b *ssa.BasicBlock, ins []guarded, i
 			e.boundsCheck(cur, idx, "(str.len "+base.T+")", x.Pos())
 			f.env[x] = IntV{"(str.to_code (str.at " + base.T + " " + idx + "))"}
 		default:
-			if x.CommaOk {
+			if v, ok := e.mapLookup(f, st, x, base); ok {
+				f.env[x] = v
+			} else if x.CommaOk {
 				f.env[x] = TupleV{e.symbolic(st, x.Type().(*types.Tuple).At(0).Type(), "mapval"), BoolV{e.fresh("mapok", "Bool")}}
 			} else {
 				f.env[x] = e.symbolic(st, x.Type(), "mapval")
